@@ -52,30 +52,42 @@ pub struct BasePath {
 }
 
 impl BasePath {
+    // the library directory as a file system path (always ends with '/')
+    fn directory(&self) -> &str {
+        self.base_path.trim_start_matches("file://")
+    }
+
+    // URIs are built from file system paths, so that names with spaces, '#', '?', '%' or
+    // non-ASCII characters are percent-encoded exactly as an editor encodes them
+    fn path_to_url(&self, relative_path: &str) -> Url {
+        Url::from_file_path(format!("{}{}", self.directory(), relative_path)).unwrap_or_else(|_| {
+            Url::parse(&self.base_path)
+                .unwrap()
+                .join(relative_path)
+                .expect("to work")
+        })
+    }
+
     fn key_to_url(&self, key: &Key) -> Url {
-        Url::parse(&self.base_path)
-            .unwrap()
-            .join(&key.to_path())
-            .expect("to work")
+        self.path_to_url(&key.to_path())
     }
 
     fn relative_to_full_path(&self, url: &str) -> Url {
-        Url::parse(&self.base_path)
-            .unwrap()
-            .join(&format!("{}.md", url.trim_end_matches(".md")))
-            .expect("to work")
+        self.path_to_url(&format!("{}.md", url.trim_end_matches(".md")))
     }
 
     fn name_to_url(&self, key: &str) -> Url {
-        Url::parse(&format!("{}{}.md", self.base_path, key)).unwrap()
+        self.path_to_url(&format!("{}.md", key))
     }
 
     fn url_to_key(&self, url: &Url) -> Key {
-        Key::from_file_name(
-            &url.to_string()
-                .trim_start_matches(&self.base_path)
-                .to_string(),
-        )
+        // compare decoded paths: the URL text is percent-encoded, the base path is not
+        let path = url
+            .to_file_path()
+            .map(|path| path.to_string_lossy().to_string())
+            .unwrap_or_else(|_| url.to_string().trim_start_matches("file://").to_string());
+
+        Key::from_file_name(path.trim_start_matches(self.directory()))
     }
 }
 
@@ -93,7 +105,7 @@ impl Server {
     pub fn new(config: ServerConfig) -> Server {
         Server {
             base_path: BasePath {
-                base_path: format!("file://{}/", config.base_path),
+                base_path: format!("file://{}/", config.base_path.trim_end_matches('/')),
             },
             database: Database::new(
                 config.state,
